@@ -203,7 +203,20 @@ pub fn worker(ctx: &Ctx, res: &mut ShardResult) {
 
 pub fn replay(case: &Value) -> Vec<String> {
     let case = if case.get("kind").and_then(|k| k.as_str()) == Some("crash") { &case["case"] } else { case };
-    if case.get("part").is_some() { return vec!["setter cases: rerun the check".into()]; }
+    if case.get("part").is_some() {
+        // setter validation: one range list against the ordered / non-overlapping rule
+        let rl: Vec<(usize, usize)> = case["ranges"].as_array().map(|a| a.iter().map(|r| (r[0].as_u64().unwrap_or(0) as usize, r[1].as_u64().unwrap_or(0) as usize)).collect()).unwrap_or_default();
+        let info = build_info(&crate::zoo::arith());
+        let mut parser = Parser::new();
+        parser.set_language(&info.language).unwrap();
+        let rs: Vec<Range> = rl.iter().map(|&(s, e)| Range { start_byte: s, end_byte: e, start_point: Point { row: 0, column: s.min(1 << 30) }, end_point: Point { row: 0, column: e.min(1 << 30) } }).collect();
+        let mut want: Result<(), usize> = Ok(());
+        let mut prev = 0usize;
+        for (i, &(s, e)) in rl.iter().enumerate() { if s < prev || e < s { want = Err(i); break; } prev = e; }
+        let got = parser.set_included_ranges(&rs).map_err(|e| e.0);
+        println!("ranges {:?}: setter returned {:?}, rule says {:?}; parser now has {:?}", rl, got, want, parser.included_ranges().iter().map(|r| (r.start_byte, r.end_byte)).collect::<Vec<_>>());
+        return if got != want { vec![format!("setter-validation: ranges {:?}: setter returned {:?}, ordered/non-overlapping rule says {:?}", rl, got, want)] } else { vec![] };
+    }
     let name = case["lang"].as_str().unwrap_or("");
     let Some(z) = crate::zoo::by_name(name) else { return vec![format!("unknown language {}", name)] };
     let info = build_info(&z);
